@@ -12,6 +12,14 @@ def mc_timer_driver(v, wd, tier):
     v.add_tlc("TimerDriver mechanism: NoLostTimer / NotLate / WakeFuture", r, consts)
     if r.violation:
         v.spec_violation("TimerDriver", r)
+    # liveness layer: under fairness of the runtime's own steps every registered timer is eventually woken or dropped,
+    # and a wake removes it at exactly its deadline
+    lc = "MaxT = 4 Timers = {a, b, c} Fixed = TRUE MaxOps = 8" if tier == "quick" else "MaxT = 5 Timers = {a, b, c} Fixed = TRUE MaxOps = 10"
+    r = tlc("TimerDriverLive", f"CONSTANTS {lc}\nSPECIFICATION SpecL\nINVARIANTS NoLostTimer NotLate WakeFuture NeverOverdue\n"
+            "PROPERTIES EventuallyWoken FiresAtDeadline\nCHECK_DEADLOCK FALSE\n", wd)
+    v.add_tlc("TimerDriverLive: EventuallyWoken (liveness, WF of wake-up dispatch and event end) / FiresAtDeadline / NeverOverdue", r, lc)
+    if r.violation:
+        v.spec_violation("TimerDriverLive", r)
 
 
 def family(v, wd, prop, name, tasks, progs, max_t, spawn="both", mc=True, what="", module="Gen_AsyncMod", tol=0, tick_ns=1_000_000_000,
